@@ -72,6 +72,21 @@ func init() {
 		},
 	})
 	register(&propDef{
+		ID: "C14",
+		Explain: "Decision-table comparison on the serverid handlers: every abstract exit of Handler6 is classified drop/accept and compared (three-valued) with the RFC 8415 §16 matrix over {inner error, Server-ID present, message type family, DUID equality}; accepts must apply WithServerID(v6ServerID) — re-derived to be an Update — to resp (SID.V6-MATRIX). Handler4's accept exits must establish siaddr ∈ {unset, 0, own} AND option 54 ∈ {absent, own}; drops must name another server (SID.V4-DROP); accepts set siaddr to a copy of v4ServerID and UpdateOption(54) (SID.V4-STAMP); identifiers are initialised on every successful setup path and v4ServerID is stored as To4() (SID.INIT).",
+		Trusted: trustedBase,
+		Assume:  []string{"DUID.Equal semantics (codec)"},
+		Run: func(c *Ctx) {
+			ro := FindRoots(c.P, c.R)
+			ruleServerID(c, "C14.")
+			ruleSIDInit(c, "C14.SID.INIT", ro)
+			c.R.Floor("C14.SID.V6-MATRIX", 2)
+			c.R.Floor("C14.SID.V4-DROP", 1)
+			c.R.Floor("C14.SID.V4-STAMP", 1)
+			c.R.Floor("C14.SID.INIT", 3)
+		},
+	})
+	register(&propDef{
 		ID: "C15",
 		Explain: "Decision-table comparison on the tail of HandleMsg4: in every abstract state reaching a send site the destination (address expression, port constant, link-level flag) equals the RFC 2131 §4.1 row selected by giaddr / NAK / ciaddr / broadcast flag, every row is realised (ADDR.CASCADE); the control message is the bound interface, else the receiving one, exactly for broadcast / link-local / L2 destinations and nil otherwise (ADDR.PIN); sendEthernet builds dst MAC = chaddr, dst IP = yiaddr, src IP = siaddr, UDP 67→68 on the looked-up interface (ADDR.L2); listenN either remembers its interface or enables per-packet interface information on every success path (ADDR.LISTENER); the control message is never dereferenced while nil (NILPATH on HandleMsg4).",
 		Trusted: trustedBase,
